@@ -126,7 +126,7 @@ fn coerce_variable_value(
                 if value.is_f64()
                     || value
                         .as_f64()
-                        .is_some_and(|f| f.abs() < MAX_SAFE_INT as f64)
+                        .is_some_and(|f| f.abs() <= MAX_SAFE_INT as f64)
                 {
                     return Ok(value.clone());
                 }
@@ -145,7 +145,8 @@ fn coerce_variable_value(
             }
             "ID" => {
                 // https://spec.graphql.org/October2021/#sec-ID.Input-Coercion
-                if value.is_string() || value.is_i64() {
+                // Any integer is accepted, including those that only fit in `u64`
+                if value.is_string() || value.is_i64() || value.is_u64() {
                     return Ok(value.clone());
                 }
             }
